@@ -636,6 +636,12 @@ class DataMixin:
         self.symdict_remove(h, kt)
         return r
 
+    def cm_HSymDict___getitem__(self, d, k):
+        return self.getitem(d, k, self.ex.ghost.get('__cur_node__'))
+
+    def cm_HSymDict___contains__(self, d, k):
+        return VBool(self.contains(d, k, None))
+
     def cm_HSymDict_keys(self, d):
         return VIterView('keys', d)
 
